@@ -24,7 +24,7 @@
    dmul22_ / `.t()` (Model/Linalg.v) without their shape asserts. *)
 From Coq Require Import Reals List Arith Bool Lia Lra Permutation.
 From RL Require Import Base.Outcome Base.Num Base.NumR Base.Str Model.Dual Model.Linalg
-  Proofs.LinalgL Proofs.LinalgP Proofs.LinalgT Proofs.LinalgH Proofs.LinalgI.
+  Proofs.DualP Proofs.Dual2P Proofs.LinalgL Proofs.LinalgP Proofs.LinalgT Proofs.LinalgH Proofs.LinalgI Proofs.LinalgRel.
 Import ListNotations.
 
 Section AnyRing.
@@ -208,6 +208,145 @@ Theorem C13_mixed_dual2 : forall cmpE n (A : list (list R)) (b : list D2),
     forall y, length y = n -> fmat_vec (OT := ops_cring cmpE) d2scale A y = b -> y = x.
 Proof. exact mixed_dual2. Qed.
 
+(* ------------------------------------------------------------------ the solver AS THE CODE RUNS IT:
+   on the concrete list-based dual numbers of Model/Dual.v with the operations `ops_dual` / `ops_dual2`
+   (the instances Run/RunLinalg.v executes at T := float, here at T := R).
+   (a) the solver is relationally parametric in its element operations: two `Ops` instances related by
+       `OpsRel` give related outcomes (same Ok / Err / Panic class, element-wise related solutions) on
+       element-wise related inputs;
+   (b) `ops_dual` ~ `ops_cring cmp1` along  d ~ (re d, coef d)  for well-formed d  (Proofs/DualP.v operator
+       specs), and `ops_dual2` ~ `ops_cring cmp2` along  d ~ (re2 d, coef1 d, coef2 d)  (Dual2P.v, LayoutP.v);
+   (c) hence every theorem above transfers to the concrete solver. *)
+Theorem C13_parametric_dsolve : forall (T1 T2 : Type) (O1 : Ops T1) (O2 : Ops T2) (Rel : T1 -> T2 -> Prop),
+  OpsRel O1 O2 Rel ->
+  forall A1 A2 b1 b2 lsq, Forall2 (Forall2 Rel) A1 A2 -> Forall2 Rel b1 b2 ->
+  orel (Forall2 Rel) (dsolve (O := O1) A1 b1 lsq) (dsolve (O := O2) A2 b2 lsq).
+Proof. exact @dsolve_rel. Qed.
+Theorem C13_parametric_fdsolve : forall (F1 F2 T1 T2 : Type) (OF1 : Ops F1) (OF2 : Ops F2) (OT1 : Ops T1) (OT2 : Ops T2)
+  (RF : F1 -> F2 -> Prop) (RT : T1 -> T2 -> Prop),
+  OpsRel OF1 OF2 RF -> OpsRel OT1 OT2 RT ->
+  forall (xmul1 : F1 -> T1 -> T1) (xmul2 : F2 -> T2 -> T2),
+  (forall f f' e e', RF f f' -> RT e e' -> RT (xmul1 f e) (xmul2 f' e')) ->
+  forall A1 A2 b1 b2 lsq, Forall2 (Forall2 RF) A1 A2 -> Forall2 RT b1 b2 ->
+  orel (Forall2 RT) (fdsolve xmul1 A1 b1 lsq) (fdsolve xmul2 A2 b2 lsq).
+Proof. exact @fdsolve_rel. Qed.
+Theorem C13_refine_dual1 : OpsRel (@ops_dual R NumR) (ops_cring (CR := CRing_D1) cmp1) (fun d a => wf d /\ a = (re d, coef d)).
+Proof. exact opsrel_dual1. Qed.
+Theorem C13_refine_dual2 : OpsRel (@ops_dual2 R NumR) (ops_cring (CR := CRing_D2) cmp2)
+  (fun d a => wf2 d /\ a = (re2 d, coef1 d, coef2 d)).
+Proof. exact opsrel_dual2. Qed.
+
+(* headline, concrete Dual: square system of well-formed duals whose real-part matrix is non-singular.
+   The model's dsolve returns well-formed duals whose abstraction abs1 x = (value, coefficient per name)
+   is THE solution of the abstract system ... *)
+Theorem C13_solve_concrete_dual1 : forall n (A : list (list (dual R))) (b : list (dual R)),
+  shape n A -> length b = n -> Forall (Forall wf) A -> Forall wf b ->
+  nonsingular n (map (map (@re R)) A) ->
+  exists x, dsolve (O := @ops_dual R NumR) A b false = Ok x /\ length x = n /\ Forall wf x /\
+    mat_vec (O := ops_cring cmp1) (map (map abs1) A) (map abs1 x) = map abs1 b /\
+    forall y : list D1, length y = n ->
+      mat_vec (O := ops_cring cmp1) (map (map abs1) A) y = map abs1 b -> y = map abs1 x.
+Proof. exact solve_concrete_dual1. Qed.
+(* ... i.e. A x = b holds in value and in the coefficient of every variable name *)
+Theorem C13_concrete_dual1_meaning : forall n (A : list (list (dual R))) (b x : list (dual R)),
+  shape n A -> length b = n -> length x = n ->
+  mat_vec (O := ops_cring cmp1) (map (map abs1) A) (map abs1 x) = map abs1 b ->
+  forall i, (i < n)%nat ->
+    Rsum (seq 0 n) (fun k => re (mget dzero A i k) * re (nth k x dzero))%R = re (nth i b dzero) /\
+    forall v, Rsum (seq 0 n) (fun k => coef (mget dzero A i k) v * re (nth k x dzero)
+                                        + coef (nth k x dzero) v * re (mget dzero A i k))%R
+              = coef (nth i b dzero) v.
+Proof. exact concrete_dual1_meaning. Qed.
+Theorem C13_solve_concrete_dual2 : forall n (A : list (list (dual2 R))) (b : list (dual2 R)),
+  shape n A -> length b = n -> Forall (Forall wf2) A -> Forall wf2 b ->
+  nonsingular n (map (map (@re2 R)) A) ->
+  exists x, dsolve (O := @ops_dual2 R NumR) A b false = Ok x /\ length x = n /\ Forall wf2 x /\
+    mat_vec (O := ops_cring cmp2) (map (map abs2) A) (map abs2 x) = map abs2 b /\
+    forall y : list D2, length y = n ->
+      mat_vec (O := ops_cring cmp2) (map (map abs2) A) y = map abs2 b -> y = map abs2 x.
+Proof. exact solve_concrete_dual2. Qed.
+Theorem C13_concrete_dual2_meaning : forall n (A : list (list (dual2 R))) (b x : list (dual2 R)),
+  shape n A -> length b = n -> length x = n ->
+  mat_vec (O := ops_cring cmp2) (map (map abs2) A) (map abs2 x) = map abs2 b ->
+  forall i, (i < n)%nat ->
+    let a k := mget d2zero A i k in
+    let xk k := nth k x d2zero in
+    let bi := nth i b d2zero in
+    Rsum (seq 0 n) (fun k => re2 (a k) * re2 (xk k))%R = re2 bi /\
+    (forall v, Rsum (seq 0 n) (fun k => coef1 (a k) v * re2 (xk k) + coef1 (xk k) v * re2 (a k))%R = coef1 bi v) /\
+    (forall u v, Rsum (seq 0 n) (fun k =>
+         coef2 (a k) u v * re2 (xk k) + coef2 (xk k) u v * re2 (a k)
+         + / 2 * (coef1 (a k) u * coef1 (xk k) v + coef1 (a k) v * coef1 (xk k) u))%R = coef2 bi u v).
+Proof. exact concrete_dual2_meaning. Qed.
+(* least squares on concrete duals: Gram matrix of the real parts non-singular => normal equations *)
+Theorem C13_lsq_concrete_dual1 : forall c (A : list (list (dual R))) (b : list (dual R)),
+  is_rect c A = true -> (1 <= c)%nat -> (1 <= length A)%nat -> length b = length A ->
+  Forall (Forall wf) A -> Forall wf b ->
+  let reA := map (map (@re R)) A in
+  nonsingular c (mat_mul (O := @ops_num R NumR) (mtranspose 0%R c reA) reA) ->
+  let A' := map (map abs1) A in
+  let At := mtranspose d1zero c A' in
+  exists x, dsolve (O := @ops_dual R NumR) A b true = Ok x /\ length x = c /\ Forall wf x /\
+    mat_vec (O := ops_cring cmp1) (mat_mul (O := ops_cring cmp1) At A') (map abs1 x)
+      = mat_vec (O := ops_cring cmp1) At (map abs1 b) /\
+    forall y : list D1, length y = c ->
+      mat_vec (O := ops_cring cmp1) (mat_mul (O := ops_cring cmp1) At A') y
+        = mat_vec (O := ops_cring cmp1) At (map abs1 b) -> y = map abs1 x.
+Proof. exact lsq_concrete_dual1. Qed.
+Theorem C13_lsq_concrete_dual2 : forall c (A : list (list (dual2 R))) (b : list (dual2 R)),
+  is_rect c A = true -> (1 <= c)%nat -> (1 <= length A)%nat -> length b = length A ->
+  Forall (Forall wf2) A -> Forall wf2 b ->
+  let reA := map (map (@re2 R)) A in
+  nonsingular c (mat_mul (O := @ops_num R NumR) (mtranspose 0%R c reA) reA) ->
+  let A' := map (map abs2) A in
+  let At := mtranspose d2zero_ c A' in
+  exists x, dsolve (O := @ops_dual2 R NumR) A b true = Ok x /\ length x = c /\ Forall wf2 x /\
+    mat_vec (O := ops_cring cmp2) (mat_mul (O := ops_cring cmp2) At A') (map abs2 x)
+      = mat_vec (O := ops_cring cmp2) At (map abs2 b) /\
+    forall y : list D2, length y = c ->
+      mat_vec (O := ops_cring cmp2) (mat_mul (O := ops_cring cmp2) At A') y
+        = mat_vec (O := ops_cring cmp2) At (map abs2 b) -> y = map abs2 x.
+Proof. exact lsq_concrete_dual2. Qed.
+(* fdsolve as the code runs it: real matrix (model operations at T := R), concrete Dual / Dual2 rhs *)
+Theorem C13_mixed_concrete_dual1 : forall n (A : list (list R)) (b : list (dual R)),
+  shape n A -> length b = n -> Forall wf b -> nonsingular n A ->
+  exists x, fdsolve (OF := @ops_num R NumR) (OT := @ops_dual R NumR) xmul_dual A b false = Ok x /\
+    length x = n /\ Forall wf x /\
+    fmat_vec (OT := ops_cring cmp1) d1scale A (map abs1 x) = map abs1 b /\
+    forall y : list D1, length y = n -> fmat_vec (OT := ops_cring cmp1) d1scale A y = map abs1 b -> y = map abs1 x.
+Proof. exact mixed_concrete_dual1. Qed.
+Theorem C13_mixed_concrete_dual2 : forall n (A : list (list R)) (b : list (dual2 R)),
+  shape n A -> length b = n -> Forall wf2 b -> nonsingular n A ->
+  exists x, fdsolve (OF := @ops_num R NumR) (OT := @ops_dual2 R NumR) xmul_dual2 A b false = Ok x /\
+    length x = n /\ Forall wf2 x /\
+    fmat_vec (OT := ops_cring cmp2) d2scale A (map abs2 x) = map abs2 b /\
+    forall y : list D2, length y = n -> fmat_vec (OT := ops_cring cmp2) d2scale A y = map abs2 b -> y = map abs2 x.
+Proof. exact mixed_concrete_dual2. Qed.
+Theorem C13_mixed_lsq_concrete_dual1 : forall c (A : list (list R)) (b : list (dual R)),
+  is_rect c A = true -> (1 <= c)%nat -> (1 <= length A)%nat -> length b = length A -> Forall wf b ->
+  let At := mtranspose 0%R c A in
+  let G := mat_mul (O := ops_cring cmpR) At A in
+  nonsingular c G ->
+  exists x, fdsolve (OF := @ops_num R NumR) (OT := @ops_dual R NumR) xmul_dual A b true = Ok x /\
+    length x = c /\ Forall wf x /\
+    fmat_vec (OT := ops_cring cmp1) d1scale G (map abs1 x) = fmat_vec (OT := ops_cring cmp1) d1scale At (map abs1 b) /\
+    forall y : list D1, length y = c ->
+      fmat_vec (OT := ops_cring cmp1) d1scale G y = fmat_vec (OT := ops_cring cmp1) d1scale At (map abs1 b) ->
+      y = map abs1 x.
+Proof. exact mixed_lsq_concrete_dual1. Qed.
+Theorem C13_mixed_lsq_concrete_dual2 : forall c (A : list (list R)) (b : list (dual2 R)),
+  is_rect c A = true -> (1 <= c)%nat -> (1 <= length A)%nat -> length b = length A -> Forall wf2 b ->
+  let At := mtranspose 0%R c A in
+  let G := mat_mul (O := ops_cring cmpR) At A in
+  nonsingular c G ->
+  exists x, fdsolve (OF := @ops_num R NumR) (OT := @ops_dual2 R NumR) xmul_dual2 A b true = Ok x /\
+    length x = c /\ Forall wf2 x /\
+    fmat_vec (OT := ops_cring cmp2) d2scale G (map abs2 x) = fmat_vec (OT := ops_cring cmp2) d2scale At (map abs2 b) /\
+    forall y : list D2, length y = c ->
+      fmat_vec (OT := ops_cring cmp2) d2scale G y = fmat_vec (OT := ops_cring cmp2) d2scale At (map abs2 b) ->
+      y = map abs2 x.
+Proof. exact mixed_lsq_concrete_dual2. Qed.
+
 (* non-vacuity: a 3 x 3 real system with a zero in the top-left corner (the first step must swap
    rows) is non-singular, hence satisfies every hypothesis above: the solver returns its solution *)
 Example C13_example :
@@ -250,4 +389,18 @@ Print Assumptions C13_dual1_meaning.
 Print Assumptions C13_dual2_meaning.
 Print Assumptions C13_mixed_dual1.
 Print Assumptions C13_mixed_dual2.
+Print Assumptions C13_parametric_dsolve.
+Print Assumptions C13_parametric_fdsolve.
+Print Assumptions C13_refine_dual1.
+Print Assumptions C13_refine_dual2.
+Print Assumptions C13_solve_concrete_dual1.
+Print Assumptions C13_concrete_dual1_meaning.
+Print Assumptions C13_solve_concrete_dual2.
+Print Assumptions C13_concrete_dual2_meaning.
+Print Assumptions C13_lsq_concrete_dual1.
+Print Assumptions C13_lsq_concrete_dual2.
+Print Assumptions C13_mixed_concrete_dual1.
+Print Assumptions C13_mixed_concrete_dual2.
+Print Assumptions C13_mixed_lsq_concrete_dual1.
+Print Assumptions C13_mixed_lsq_concrete_dual2.
 Print Assumptions C13_example.
